@@ -1,5 +1,48 @@
-(** The well-formedness invariant of an endpoint and how its components react to the elementary
-    updates performed by the steps. *)
+(** The well-formedness invariant [WF] of an endpoint ([Endpoint.v]) and how its components react to
+    the elementary updates performed by the steps.
+
+    [WF e] = no panic so far, the allocator holds pairwise distinct numbers, at most [max_ports] of
+    them, every receive queue respects the advertised buffer and the listener queues their capacity
+    (these hold even after the connection has been terminated), and -- while the dispatcher has not
+    ended with an error -- [Inv e]:
+
+    - [qs_ok]      [cq] carries only connect requests and the all-clients-dropped marker, [chq] only port events;
+    - [num_ok]     for every number [p]: (occurrences of [p] in the pending [EConnectReq]/[EAccepted]/
+                   [ESendPorts] events) + (1 if [p] is a key of the port table) <= (1 if [p] is allocated).
+                   Hence pending numbers are allocated, pairwise distinct, not keys of the table, and
+                   every key is allocated;
+    - [req_ok]     [outstanding] is exactly the set of live [Request] objects ([requests]); the reply event
+                   ([EAccepted _ r]/[ERejected r _]) of [r] is queued exactly once iff the request is in
+                   state [RAnswered], and not at all otherwise;
+    - [handle_ok]  for every port [p] with handle [h]: [ESenderDropped p] is queued once iff [h_tx = Queued]
+                   (never otherwise), same for [EReceiverDropped]/[h_rx] and [EReceiverClosed]/[h_rxc]; no
+                   [EReceiverClosed p] is queued behind an [EReceiverDropped p]; [h_rx = Gone] excludes
+                   [h_rxc = Queued]; a [Connected] entry has a handle and [tx_dropped = (h_tx = Gone)],
+                   [rx_dropped = (h_rx = Gone)], [rx_closed = (h_rxc = Gone)]; a port that is not
+                   [Connected] has both halves [Gone] (so a half that is not [Gone] implies [Connected]);
+    - [portq_ok]   a request is in state [RPortQ] iff it occurs (exactly once) in the receive queue of a
+                   connected port whose receiver is alive;
+    - [buf_ok]     per connected port: [used <= receive_buffer], at most one zero-cost item and only after
+                   [SendFinish] (so [len rxq <= used + 1]), and NOT all four release flags (else it
+                   would have been freed);
+    - [lq_ok]      [lq_wait], [lq_nowait] [<= connect_queue + 1];
+    - keys of the port table are unique;
+    - [conn_ok]    (while not both Goodbyes) a local connect request in state [CWaiting] has exactly one
+                   carrier: its queued [EConnectReq]/[ESendPorts] entry or its [Connecting] table entry;
+                   a resolved or unknown request id has none.
+
+    What is assumed about local users is exactly the enabledness of the [U..]/[N..] actions in
+    [Endpoint.step_opt], i.e. what Rust ownership gives:
+    - [UConnect]/[UAccept]/[USendPorts] bring numbers that are [fresh]: a [PortNumber] is obtained from
+      THIS endpoint's allocator, is unique while it exists, and at most [max_ports] exist (a [PortNumber]
+      of another multiplexer's allocator passed to [connect_ext]/[accept_from]/[Sender::connect] is
+      outside the model);
+    - [UConnect]/[USendPorts] bring new reply cells (fresh request ids);
+    - [UDropTx]/[UDropRx]/[UCloseRx]/[USendData]/[USendPorts]/[UConsume]/[UReturnCredits] need the
+      [Sender]/[Receiver] to be [Alive] (a value is dropped once; [close] takes [&mut Receiver] and is
+      guarded by [closed]); the notifier tasks [NTx]/[NRx]/[NReq] fire once (oneshot);
+    - [UAccept]/[UReject]/[UDropRequest] consume a [Request] that is held (by value);
+      [UListenerTake]/[UDropListener] need the [Listener]. *)
 From Remoc Require Import Lib.Base Gen.Consts Chmux.Wire Chmux.Mux Chmux.Endpoint Chmux.EndpointLemmas.
 From RecordUpdate Require Import RecordUpdate.
 
